@@ -103,6 +103,7 @@ def main():
     tier = a.tier if a.tier in ('quick', 'thorough') else 'quick'
     t0 = time.time()
     C.setup_impl_path()
+    C.tree_lock()
     mod = importlib.import_module('harness.props.' + pid.lower())
     work = C.mkwork()
     try:
